@@ -29,16 +29,37 @@
 (* C05_Gen_Buggy_FallbackDropsKw): the class-hierarchy fallback forgets    *)
 (* the keyword arguments - on PoolSel "fb" (leaves known through a base    *)
 (* class only) TLC must find a call that is not transparent.               *)
+(* Round 5: the BUILD MODE of the history's expression objects is an input  *)
+(* dimension (variable bm): 1 = structurally equal subtrees are one object, *)
+(* 0 = every occurrence is an object of its own, 2 = decided by the parity  *)
+(* of the history (the cheap sampling the older cfgs keep).  ShareSel "both" *)
+(* lets TLC choose.  For the identity-shaped kinds the handlers' "return    *)
+(* the node itself / rebuild it" algorithm with object identity             *)
+(* (C05_Rebuild) is run on every history: RebuildTransparent (memoizing =   *)
+(* the same handlers without a table) and FieldsSurvive (= the meaning).    *)
+(* RbMode "faithful" is the design; RbMode "scope" (negative control        *)
+(* C05_Gen_Buggy_RebuildDropsScope: the rebuild branch forgets an optional  *)
+(* field) must be refuted on PoolSel "fields" - and must NOT be refutable   *)
+(* in the shared build mode alone (C05_Gen_RebuildDropsScope_shared holds). *)
+(* PoolSel "fields": every history is a prelude of plain subtrees followed  *)
+(* by one field-carrying expression (Pre).                                  *)
 (***************************************************************************)
-EXTENDS C05_Pool, Json
-CONSTANTS PoolSel, ArgSel, MaxLen, KeyMode, StoreMode, HitMode, FbMode, Random
-VARIABLES hist, sts
+EXTENDS C05_Pool, C05_Rebuild, Json
+CONSTANTS PoolSel, ArgSel, MaxLen, KeyMode, StoreMode, HitMode, FbMode, Random, ShareSel, RbMode
+VARIABLES hist, sts, bm
 
 Pool == CASE PoolSel = "core"   -> PoolCore
           [] PoolSel = "full"   -> PoolCore \o PoolMore
           [] PoolSel = "consts" -> PoolConsts
           [] PoolSel = "mini"   -> PoolMini
           [] PoolSel = "fb"     -> PoolFb       \* round 4: class-hierarchy fallback dispatch
+          [] PoolSel = "fields" -> PoolFields   \* round 5: field values x arrangements
+\* only the first Pre pool entries may be followed by another call
+Pre == IF PoolSel = "fields" THEN NFieldPre ELSE Len(Pool)
+BmSet == CASE ShareSel = "parity"   -> {2}
+           [] ShareSel = "both"     -> {0, 1}
+           [] ShareSel = "shared"   -> {1}
+           [] ShareSel = "distinct" -> {0}
 ArgTab == CASE ArgSel = "core" -> ArgCore
             [] ArgSel = "full" -> ArgCore \o ArgMore
             [] ArgSel = "two"  -> << NoArgs, Args(<< IntV(1) >>, << >>) >>
@@ -48,6 +69,7 @@ NM == Len(Modelled)
 ArgOk(mk, q) == ArgFits(mk, ArgTab[q])
 
 Init == /\ hist = << >>
+        /\ bm \in BmSet
         /\ sts = [i \in 1..NM |-> [tab |-> EmptyFn, memo |-> MemoInit, v |-> "OK", live |-> TRUE]]
 
 Step(st, mk, p, q) ==
@@ -60,9 +82,11 @@ Step(st, mk, p, q) ==
 Extend(p, q) ==
     /\ hist' = Append(hist, [e |-> p, a |-> q])
     /\ sts' = [i \in 1..NM |-> Step(sts[i], Modelled[i], p, q)]
+    /\ UNCHANGED bm
 
 Next ==
     /\ Len(hist) < MaxLen
+    /\ (IF Len(hist) = 0 THEN TRUE ELSE hist[Len(hist)].e <= Pre)
     /\ IF Random
        THEN Extend(RandomElement(1..Len(Pool)), RandomElement(1..Len(ArgTab)))
        ELSE \E p \in 1..Len(Pool), q \in 1..Len(ArgTab) : Extend(p, q)
@@ -82,12 +106,20 @@ SoundCache ==
         /\ NotSharedAcrossTypes(sts[i].memo, F)
         /\ NotSharedAcrossArgs(sts[i].memo, F)
 
-\* ---- emission ----------------------------------------------------------------
+\* ---- round 5: the rebuild algorithm of the identity-shaped kinds --------------
 HSum == SeqSum([i \in 1..Len(hist) |-> hist[i].e + hist[i].a])
+Sh == IF bm = 2 THEN HSum % 2 ELSE bm
+Calls == [j \in 1..Len(hist) |-> [e |-> Pool[hist[j].e], a |-> ArgTab[hist[j].a]]]
+IdLive == { i \in Live : Modelled[i].m \in IdKinds }
+IdV(i) == IdVerdict(RbMode, Sh = 1, KeyMode, Modelled[i], Calls)
+RebuildTransparent == \A i \in IdLive : IdV(i) # "memo-differs"
+FieldsSurvive      == \A i \in IdLive : IdV(i) # "meaning-differs"
+
+\* ---- emission ----------------------------------------------------------------
 Emit == Len(hist) >= 1 =>
-          PrintT(ToJson([h |-> hist, sh |-> HSum % 2]))
+          PrintT(ToJson([h |-> hist, sh |-> Sh]))
 Kinds == Modelled \o Unmodelled
-Tables == [pool |-> Pool, args |-> ArgTab, envs |-> Envs,
+Tables == [pool |-> Pool, args |-> ArgTab, envs |-> Envs, ninit |-> Cardinality(BmSet),
            kinds |-> [i \in 1..Len(Kinds) |-> [mk |-> Kinds[i], cap |-> ArgCap(Kinds[i])]]]
 ASSUME PrintT(ToJson([tables |-> Tables]))
 =============================================================================
